@@ -123,4 +123,12 @@ theorem enabled_or_parked {s : State} (hr : Reachable repaired s) :
   refine ⟨by omega, ?_⟩
   simp [CState.inflight, abs]; omega
 
+theorem running_nil_of_count {pcs : List PC} (h : cntOf pcs .run = 0) : pcs.filterMap PC.task? = [] := by
+  simp only [cntOf, List.countP_eq_zero] at h
+  rw [List.filterMap_eq_nil_iff]
+  intro p hp
+  have := h p hp
+  cases p <;> simp_all [PC.task?, PC.cls]
+
+
 end Ecal.Pool
